@@ -184,6 +184,9 @@ class ParseCache:
                     data = self.read_from_bytes(util.HTTPCache.singleton().get(url))
                 except requests.exceptions.RequestException as err:
                     logger.debug(err)
+        except OSError as err:
+            # Something which is not a readable file sits where the cache is expected
+            logger.info("Error reading cache file: %s", err)
 
         if not data:
             logger.info("No cache usable")
